@@ -250,6 +250,11 @@ class NumpyModel:
         ln, rn = opnodes(node)
         ltext, rtext = interp.sx(ln), interp.sx(rn)
         out = out.w(bin=(o, l, r, ltext, rtext))
+        if o == '-' and l.pair_pos == 1 and r.pair_pos == 0 and l.pair_src is not None and l.pair_src == r.pair_src:
+            out = out.w(pair_width=l.pair_src)  # length of one part of a partition
+        if o == '-' and l.shifted is not None and r.shifted is not None and l.shifted[1] == r.shifted[1] \
+                and (l.shifted[0], l.shifted[3]) == (1, 0) and (r.shifted[0], r.shifted[3]) == (0, 1):
+            out = out.w(pair_width=l.shifted[1])  # e[1:] - e[:-1]: the lengths of all parts
         g = self.geo_binop(interp, o, l, r, node)
         out = out.w(geo=g)
         # axes: broadcasting keeps the axes of the higher-rank operand when known
@@ -710,6 +715,12 @@ class NumpyModel:
         r = self.subscript_ext(interp, st, base, idx, node, frame)
         if r is not None:
             return r
+        if ty == 'obj' and base.cls in interp.p.classes:
+            # obj[key] on a package class: its own __getitem__
+            m = interp.p.find_method(interp.p.classes[base.cls], '__getitem__')
+            if m is not None:
+                interp.emit('call', node, callee=m.qualname, args=[idx], kwargs={}, bound=base)
+                return interp.call_function(m, [idx], {}, st, self_av=base, node=node)
         interp.emit('index', node, base=base, index=idx)
         return AV(deps=d)
 
@@ -809,7 +820,8 @@ class NumpyModel:
             if lo is not None and lo >= 0 and hi_ok and sl.step is None and not (lo == 0 and sl.hi is None):
                 prev = base.shifted
                 out = out.w(shifted=(lo + (prev[0] if prev else 0), prev[1] if prev else interp.sx(node.value),
-                                     axes[0] if axes else None, -cval(sl.hi) if sl.hi is not None else 0))
+                                     axes[0] if axes else None, -cval(sl.hi) if sl.hi is not None else 0),
+                            shifted_of=base.shifted_of if prev else base.only('linspace', 'lin_n', 'dtype', 'arange', 'sx', 'ty'))
         if len(items) == 1 and items[0].dtype == 'bool' and (base.counts_of is not None or base.unique_of is not None):
             out = out.w(counts_of=base.counts_of, unique_of=base.unique_of)  # value-based selection of unique() output
         n_fancy = sum(1 for it in items if it.ty in ('ndarray', 'list') and it.dtype != 'bool')
